@@ -16,7 +16,7 @@ import (
 
 var errEOF = io.EOF
 
-func timeoutChan() <-chan time.Time { return time.After(60 * time.Second) }
+func timeoutChan() <-chan time.Time { return time.After(20 * time.Second) }
 
 // ---------- replay table (native only) ----------
 
@@ -360,3 +360,7 @@ func I16(name string) int16 { return int16(U16(name)) }
 func SchedYieldOnly(on bool) {}
 
 func I32s(name string) int32 { return int32(U32(name)) }
+
+// AllowDeadlock: a path on which every goroutine ends up blocked is not a
+// violation (INTRINSIC).
+func AllowDeadlock() {}
